@@ -3,16 +3,17 @@
 proof          coq/Props/C13.v (Loader/Proofs.v, DecodeProofs.v, LoadProofs.v, CronPlug.v): for ALL untyped trees, options
                and environments the loader model (decode + build, following the repaired code) never panics; every
                accepted step / handler has a name, a valid signal and something to execute; every accepted schedule
-               parses; evaluating conditions never crashes.  Not repaired: F13f (status not serialisable for executor
-               config holding a mapping inside a list or NaN / Inf) - `_refuted` witness + `_partial` theorem.
+               parses; the status of every accepted DAG is serialisable (the agent's status endpoint does not reach its
+               nil *httpError path); evaluating conditions never crashes.  All clauses are full statements.
 correspondence harness/cmd/load: definition trees (grammar + mutations + systematic streams) rendered to YAML, through
                LoadYAML / LoadMetadata / LoadWithoutEval / Load of /repo; outcome class, projected DAG, environment
                difference, JSON round trip of the status, EvalConditions - compared with the model on the same tree.
 monitor        the property itself on what the implementation did, judged by independent criteria (not by the model): no
                panic from any entry point; accepted => one step per element of `steps:` and one handler per entry of
                `handlerOn:` (the steps were validated), each named and executable, schedules parse, the STORED signal
-               names are valid (unix.SignalNum != 0), status marshals and reads back, evaluating an accepted condition
-               does not crash; what LoadYAML accepts, LoadWithoutEval accepts too.
+               names are valid (unix.SignalNum != 0), status marshals and reads back, GET /status on an agent set up for
+               the accepted DAG answers 200, evaluating an accepted condition does not crash; what LoadYAML accepts,
+               LoadWithoutEval accepts too.
 raw bytes      random bytes / damaged fixtures / deep nesting / alias bombs in a guarded child process: crashes only
                (robustness testing in support - no theorem speaks about the YAML library).
 """
@@ -71,6 +72,10 @@ def monitor_case(c):
         if not d["json_ok"]:
             yield ("the status of the DAG accepted by %s cannot be serialised: %s" % (ep, d.get("json_err")),
                    {"defect": "not-serialisable", "shape": L.not_serialisable_shape(tree, d.get("json_err", ""))})
+        ept = d.get("endpoint") or ""
+        if ept and ept != "200" and not ept.startswith("skip"):
+            yield ("the live status endpoint of an agent for the DAG accepted by %s answered %r instead of 200" % (ep, ept),
+                   {"defect": "status-endpoint", "shape": "panic" if ept.startswith("panic") else "not-200"})
         for cd in d.get("conds", []):
             if cd["cls"] == "panic":
                 shape = "invalid-regexp-in-expected" if cd["expected"] in oracle.get("rebad", []) else "unexplained"
@@ -117,6 +122,9 @@ def slim(c):
         return {k: c[k] for k in ("kind", "stream", "b64", "len", "res") if k in c}
     out = {k: c[k] for k in ("kind", "stream", "mut", "tree", "yaml") if k in c}
     out["res"] = {e: {k: v for k, v in r.items() if k in ("cls", "err", "at", "repo", "msg")} for e, r in c["res"].items()}
+    for e, r in c["res"].items():
+        if r.get("dag") and r["dag"].get("endpoint"):
+            out["res"][e]["endpoint"] = r["dag"]["endpoint"]
     for e, r in c["res"].items():
         if r.get("dag"):
             out["res"][e]["dag"] = {k: r["dag"][k] for k in ("name", "steps", "handlers", "sched", "json_ok", "json_err") if k in r["dag"]}
@@ -267,6 +275,15 @@ def run(ctx, replay_cases=None):
     ctx.cov["raw_bytes_stream"] = {"label": "robustness testing in support (no theorem covers the YAML library): crashes only",
                                    "documents": len(raws), "streams": rawstreams, "outcomes": rawcls}
     ctx.cov["model_mismatches"] = len(bad)
+    ept = {}
+    for c in trees:
+        r = c["res"]["noeval"]
+        if r["cls"] == "ok":
+            k = (r["dag"].get("endpoint") or "not-driven").split(":")[0]
+            ept[k] = ept.get(k, 0) + 1
+    ctx.cov["agent_status_endpoint"] = {"GET /status on an agent set up for each DAG accepted by LoadWithoutEval": ept,
+                                        "control (hand-built DAG whose status does not marshal: the modelled nil *httpError path)":
+                                        (infos[0].get("endpoint_control") if infos else None)}
     for c in trees[700:702] + trees[-2:]:
         ctx.sample({"stream": c["stream"], "mut": c.get("mut"), "yaml": c["yaml"][:400],
                     "outcomes": {e: r["cls"] for e, r in c["res"].items()}})
@@ -283,8 +300,7 @@ def run(ctx, replay_cases=None):
                        "hypotheses of the no-panic theorems: (1) the cron library panics only on a bare TZ= / CRON_TZ= prefix - proved "
                        "for the Cron model (coq/Loader/CronPlug.v); (2) a parameter value matched by the quoted alternative of the "
                        "tokenizer's regular expression holds its two quotes (the loader slices value[1:len-1]); `build` alone assumes "
-                       "no_nil d, which decode guarantees (C13_decode_no_nil); the premise of the one _partial theorem is the excluded "
-                       "input class of the unrepaired defect F13f"]
+                       "no_nil d, which decode guarantees (C13_decode_no_nil)"]
     cron_agreement(ctx, trees)
     if ctx.tier == "thorough":
         ctx.coqchk()
